@@ -726,7 +726,9 @@ func c15RunTicks(cases []c15Case) []string {
 	for i, c := range cases {
 		ctl := &c15TickCtl{release: make(chan struct{})}
 		c15Ctl.Store(ctl)
-		res[i] = c15RunCtl(c, ctl)
+		cc := c
+		res[i] = c15Guard(cc, func() string { return c15RunCtl(cc, ctl) })
+		touch()
 	}
 	c15Ctl.Store((*c15TickCtl)(nil))
 	return res
@@ -739,6 +741,21 @@ func c15HasTick(c c15Case) bool {
 		}
 	}
 	return false
+}
+
+// c15Guard runs one case under a watchdog: a recorder call that never returns (a deadlock inside the library) must
+// end the observation with a report, not hang the check
+func c15Guard(c c15Case, f func() string) string {
+	done := make(chan string, 1)
+	go func() { done <- f() }()
+	select {
+	case l := <-done:
+		return l
+	case <-time.After(60 * time.Second):
+		fmt.Printf("c15: HANG: a recorder call did not return within 60 s in case %d (wrapper %s, recorder %s, %d operations)\n", c.id, c.w, c.k, len(c.ops))
+		os.Exit(3)
+	}
+	return ""
 }
 
 func c15RunAll(cases []c15Case) []string {
@@ -760,7 +777,9 @@ func c15RunAll(cases []c15Case) []string {
 		go func() {
 			defer wg.Done()
 			for i := range ch {
-				res[i] = c15Run(cases[i])
+				ci := cases[i]
+				res[i] = c15Guard(ci, func() string { return c15Run(ci) })
+				touch()
 			}
 		}()
 	}
